@@ -144,8 +144,8 @@ chk('C05', 'model_checking',
     STRAT_NOTE,
     'TLC model checking of all interleavings + TLC trace validation of '
     'free-running and schedule-enumerated parallel executions',
-    'Hier.tla, HierBad.tla, Ddmin.tla, TraceHier.tla, TraceDdmin.tla',
-    'DESIGN.md section 5, C05')
+    'Hier.tla, HierBad.tla, Ddmin.tla, DdminBad.tla, TraceHier.tla, '
+    'TraceDdmin.tla', 'DESIGN.md section 5, C05')
 
 chk('C18', 'model_checking',
     'Hier.tla with one worker satisfies FirstSuccessAdopted for every schedule '
@@ -344,6 +344,8 @@ ENGINES = [
      'TLA+ spec: strategy_ddmin (_check_par/_check_seq, TaskGenerator)'),
     ('HierBad.tla', 'specs/HierBad.tla',
      'TLA+ spec: faulty variants of Hier.tla that its properties must refute'),
+    ('DdminBad.tla', 'specs/DdminBad.tla',
+     'TLA+ spec: faulty variants of Ddmin.tla that its properties must refute'),
     ('TraceHier.tla', 'specs/TraceHier.tla',
      'TLA+ trace spec reusing Hier.tla action bodies'),
     ('TraceDdmin.tla', 'specs/TraceDdmin.tla',
